@@ -42,16 +42,16 @@ type isoOp struct {
 }
 
 type isoWorld struct {
-	r        *simkit.Run
-	db       database.DB
-	wl       *workload
-	keys     []string
-	nVers    int
-	aborted  map[int]bool
-	commitV  int // last committed version (writer's commit step finished)
-	ops      []isoOp
-	bucket   []byte
-	storeAt  map[int]int // version -> block index stored in it
+	r       *simkit.Run
+	db      database.DB
+	wl      *workload
+	keys    []string
+	nVers   int
+	aborted map[int]bool
+	commitV int // last committed version (writer's commit step finished)
+	ops     []isoOp
+	bucket  []byte
+	storeAt map[int]int // version -> block index stored in it
 }
 
 // expected returns the key -> value map of version v.
